@@ -1,1 +1,204 @@
 // in-crate Kani harnesses included into the real crate under cfg(kani) (see MANIFEST.hooks)
+// C20: the private wildcard matcher `PatternSet::match_pattern` against a dynamic-programming reference.
+mod verif_kani_pattern {
+    use super::*;
+
+    const MAXLEN: usize = 12;
+
+    /// Reference written from the documented semantics ("*" any possibly empty sequence, "?" any single
+    /// character, every other character itself): m[i][j] <=> pattern[i..] matches input[j..].
+    /// No greedy search, no backtracking: plain table filling, so it shares no structure with the
+    /// implementation.  Characters are bytes here; the harnesses restrict bytes to ASCII, where the two coincide.
+    fn ref_match(p: &[u8], s: &[u8]) -> bool {
+        let pl = p.len();
+        let sl = s.len();
+        let mut m = [[false; MAXLEN + 1]; MAXLEN + 1];
+        let mut i = pl + 1;
+        while i > 0 {
+            i -= 1;
+            let mut j = sl + 1;
+            while j > 0 {
+                j -= 1;
+                m[i][j] = if i == pl {
+                    j == sl
+                } else if p[i] == b'*' {
+                    m[i + 1][j] || (j < sl && m[i][j + 1])
+                } else {
+                    j < sl && (p[i] == b'?' || p[i] == s[j]) && m[i + 1][j + 1]
+                };
+            }
+        }
+        m[0][0]
+    }
+
+    #[derive(Clone, Copy)]
+    enum Alpha {
+        /// pattern bytes in {a, b, *, ?}, input bytes in {a, b, c}
+        Small,
+        /// every 7-bit byte in both (ASCII: one character = one byte)
+        Ascii,
+        /// every byte value in both (byte-level reading of "character")
+        Bytes,
+    }
+
+    /// All patterns of length P and all inputs of length N over the alphabet: the implementation returns
+    /// exactly what the reference returns; no panic / overflow / out-of-bounds (Kani's default checks).
+    fn check<const P: usize, const N: usize>(alpha: Alpha) -> bool {
+        let pat: [u8; P] = kani::any();
+        let inp: [u8; N] = kani::any();
+        let mut k = 0;
+        while k < P {
+            let c = pat[k];
+            match alpha {
+                Alpha::Small => kani::assume(c == b'a' || c == b'b' || c == b'*' || c == b'?'),
+                Alpha::Ascii => kani::assume(c < 128),
+                Alpha::Bytes => {}
+            }
+            k += 1;
+        }
+        let mut k = 0;
+        while k < N {
+            let c = inp[k];
+            match alpha {
+                Alpha::Small => kani::assume(c == b'a' || c == b'b' || c == b'c'),
+                Alpha::Ascii => kani::assume(c < 128),
+                Alpha::Bytes => {}
+            }
+            k += 1;
+        }
+        let got = PatternSet::match_pattern(&pat, &inp);
+        let want = ref_match(&pat, &inp);
+        assert!(got == want, "match_pattern differs from the documented wildcard semantics");
+        got
+    }
+
+    macro_rules! h {
+        ($name:ident, $p:expr, $n:expr, $alpha:expr, $unwind:expr) => {
+            #[kani::proof]
+            #[kani::unwind($unwind)]
+            fn $name() {
+                let got = check::<$p, $n>($alpha);
+                kani::cover!(got);
+                kani::cover!(!got);
+            }
+        };
+    }
+
+    // unwind: the matcher's loop runs at most (N+1)*(P+1)+1 times (s_back never decreases, at most P+1 steps
+    // between two backtracks); unwinding assertions are on, a too-small bound cannot pass silently.
+    h!(c20_match_small_p3_n3, 3, 3, Alpha::Small, 22);
+    h!(c20_match_small_p4_n4, 4, 4, Alpha::Small, 32);
+    h!(c20_match_small_p5_n5, 5, 5, Alpha::Small, 44);
+    h!(c20_match_small_p6_n6, 6, 6, Alpha::Small, 58);
+    h!(c20_match_ascii_p3_n3, 3, 3, Alpha::Ascii, 22);
+    h!(c20_match_ascii_p4_n4, 4, 4, Alpha::Ascii, 32);
+    h!(c20_match_bytes_p3_n3, 3, 3, Alpha::Bytes, 22);
+    h!(c20_match_small_p7_n7, 7, 7, Alpha::Small, 74);
+    h!(c20_match_small_p8_n8, 8, 8, Alpha::Small, 92);
+    h!(c20_match_ascii_p5_n5, 5, 5, Alpha::Ascii, 44);
+    h!(c20_match_ascii_p6_n6, 6, 6, Alpha::Ascii, 58);
+    h!(c20_match_ascii_p7_n7, 7, 7, Alpha::Ascii, 74);
+    h!(c20_match_bytes_p5_n5, 5, 5, Alpha::Bytes, 44);
+    h!(c20_match_small_p10_n10, 10, 10, Alpha::Small, 124);
+    h!(c20_match_ascii_p8_n8, 8, 8, Alpha::Ascii, 92);
+    h!(c20_match_ascii_p4_n10, 4, 10, Alpha::Ascii, 64);
+    h!(c20_match_ascii_p10_n4, 10, 4, Alpha::Ascii, 64);
+    h!(c20_match_bytes_p7_n7, 7, 7, Alpha::Bytes, 74);
+
+    /// Degenerate and tiny sizes, every 7-bit byte: P in 0..=2, N in 0..=2 (empty pattern matches only the empty
+    /// input; `PatternSet::new` refuses empty patterns, the matcher itself is total on them).
+    #[kani::proof]
+    #[kani::unwind(12)]
+    fn c20_match_ascii_sizes_0_to_2() {
+        check::<0, 0>(Alpha::Ascii);
+        check::<0, 1>(Alpha::Ascii);
+        check::<0, 2>(Alpha::Ascii);
+        check::<1, 0>(Alpha::Ascii);
+        check::<1, 1>(Alpha::Ascii);
+        check::<1, 2>(Alpha::Ascii);
+        check::<2, 0>(Alpha::Ascii);
+        check::<2, 1>(Alpha::Ascii);
+        check::<2, 2>(Alpha::Ascii);
+        kani::cover!(true);
+    }
+}
+
+// C20, policy JSON: a single attempt on concrete values (serde_json + String on the heap; nothing symbolic).
+// MEASURED: c20_json_finding_one_star_decodes_as_wildcard: symbolic execution not finished after 420 s (no verdict);
+// this half of C20 is OUT for Kani (the defect itself is visible by reading: visit_str maps "*" to Wildcard).
+mod verif_kani_model {
+    use crate::model::{Effect, OneOrMore, WildcardOneOrMore};
+
+    fn naive_memchr(x: u8, text: &[u8]) -> Option<usize> {
+        let mut i = 0;
+        while i < text.len() {
+            if text[i] == x {
+                return Some(i);
+            }
+            i += 1;
+        }
+        None
+    }
+
+    fn cpuid_zero(_leaf: u32, _sub: u32) -> core::arch::x86_64::CpuidResult {
+        core::arch::x86_64::CpuidResult { eax: 0, ebx: 0, ecx: 0, edx: 0 }
+    }
+
+    /// FINDING json_one_star (C20 "every policy document value survives JSON encoding and decoding unchanged,
+    /// single values and one-element forms are kept distinct"): `WildcardOneOrMore::One("*")` is encoded as the
+    /// JSON string "*" and decoded as `WildcardOneOrMore::Wildcard`, a different value.  Expected to FAIL.
+    #[kani::proof]
+    #[kani::unwind(8)]
+    #[kani::stub(core::slice::memchr::memchr, naive_memchr)]
+    #[kani::stub(core::arch::x86_64::__cpuid_count, cpuid_zero)]
+    fn c20_json_finding_one_star_decodes_as_wildcard() {
+        let v: WildcardOneOrMore<String> = WildcardOneOrMore::One("*".to_owned());
+        let text = match serde_json::to_string(&v) {
+            Ok(t) => t,
+            Err(_) => panic!("encoding failed"),
+        };
+        let back: Result<WildcardOneOrMore<String>, _> = serde_json::from_str(&text);
+        let same = match &back {
+            Ok(WildcardOneOrMore::One(s)) => s.len() == 1 && s.as_bytes()[0] == b'*',
+            _ => false,
+        };
+        core::mem::forget(back);
+        core::mem::forget(text);
+        core::mem::forget(v);
+        kani::cover!(true);
+        assert!(same, "One(\"*\") does not survive JSON encoding and decoding");
+    }
+
+    /// Effect: "Allow" / "Deny" decode to the two values, "allow" (unknown effect) is refused.
+    #[kani::proof]
+    #[kani::unwind(8)]
+    #[kani::stub(core::slice::memchr::memchr, naive_memchr)]
+    #[kani::stub(core::arch::x86_64::__cpuid_count, cpuid_zero)]
+    fn c20_json_effect_concrete() {
+        let a: Result<Effect, _> = serde_json::from_str("\"Allow\"");
+        assert!(matches!(&a, Ok(Effect::Allow)));
+        core::mem::forget(a);
+        let d: Result<Effect, _> = serde_json::from_str("\"Deny\"");
+        assert!(matches!(&d, Ok(Effect::Deny)));
+        core::mem::forget(d);
+        let x: Result<Effect, _> = serde_json::from_str("\"allow\"");
+        assert!(x.is_err());
+        core::mem::forget(x);
+        kani::cover!(true);
+    }
+
+    /// OneOrMore: "a" decodes to One("a") and ["a"] to More(["a"]) (kept distinct as written).
+    #[kani::proof]
+    #[kani::unwind(8)]
+    #[kani::stub(core::slice::memchr::memchr, naive_memchr)]
+    #[kani::stub(core::arch::x86_64::__cpuid_count, cpuid_zero)]
+    fn c20_json_one_vs_list_concrete() {
+        let a: Result<OneOrMore<String>, _> = serde_json::from_str("\"a\"");
+        assert!(matches!(&a, Ok(OneOrMore::One(s)) if s.len() == 1 && s.as_bytes()[0] == b'a'));
+        core::mem::forget(a);
+        let b: Result<OneOrMore<String>, _> = serde_json::from_str("[\"a\"]");
+        assert!(matches!(&b, Ok(OneOrMore::More(v)) if v.len() == 1 && v[0].len() == 1 && v[0].as_bytes()[0] == b'a'));
+        core::mem::forget(b);
+        kani::cover!(true);
+    }
+}
